@@ -2,6 +2,7 @@
 
 import asyncio
 from collections.abc import Callable, Coroutine
+import contextlib
 from dataclasses import dataclass, field
 import json
 import logging
@@ -71,19 +72,24 @@ class Persistence:
 
         async def save_on_schedule() -> None:
             """Save data and sleep until next save."""
-            while True:
-                await self.save()
-                try:
+            with contextlib.suppress(asyncio.CancelledError):
+                while True:
+                    await self.save()
                     await asyncio.sleep(SAVE_INTERVAL)
-                except asyncio.CancelledError:
-                    break
 
         task = asyncio.create_task(save_on_schedule())
 
         async def cancel_save() -> None:
             """Cancel the save task."""
             task.cancel()
-            await task
+            try:
+                await task
+            except asyncio.CancelledError:
+                # The save task was cancelled before it started running. Only
+                # propagate the cancellation if this task itself is cancelled.
+                current_task = asyncio.current_task()
+                if current_task is not None and current_task.cancelling():
+                    raise
 
         self._cancel_save = cancel_save
 
